@@ -120,22 +120,26 @@ def mergeSeq : Handler := fun args =>
   let uni := getBool args "unicity"
   let ext := getBool args "extend"
   let root : TPath := if ext then ["services", "x"] else TPath.root
-  let rec go (acc : Val) (l : List Val) (hz : Bool) : Json :=
+  -- `seen`: an earlier override already went through `mergeIPAMConfig`, whose result list can hold the same
+  -- map object twice; merging into it again is aliasing-sensitive (value semantics here) ⇒ hazard
+  let rec go (acc : Val) (l : List Val) (hz seen : Bool) : Json :=
     match l with
     | [] => outJson (.ok acc) [] hz
     | o :: r =>
       let m := if ext then extendService acc o else merge acc o
+      let hz' := hz || ipamHazard o || (seen && touchesIpam o)
+      let seen' := seen || touchesIpam o
       match m with
       | .ok v =>
         if uni then
           match Unicity.enforceTop v with
-          | .ok u => go u r (hz || ipamHazard o)
-          | f => outJson f (failsEnforce v TPath.root)
-        else go v r (hz || ipamHazard o)
+          | .ok u => go u r hz' seen'
+          | f => Json.mergeObj (outJson f (failsEnforce v TPath.root)) (Json.mkObj [("loose", Json.bool hz')])
+        else go v r hz' seen'
       | f =>
         let alts := failsYaml (fuelFor o) acc o root
         Json.mergeObj (outJson f alts) (Json.mkObj [("loose", Json.bool (touchesIpam o))])
-  go base overs false
+  go base overs false false
 
 def unicity : Handler := fun args =>
   let v := getVal args "v"
@@ -184,19 +188,21 @@ def docs : Handler := fun args =>
   let ds := match getObj args "docs" with
     | .arr a => a.toList.map nodeOfJson
     | _ => []
-  let rec go (acc : Val) (l : List CV.Reset.YNode) : Json :=
+  let rec go (acc : Val) (l : List CV.Reset.YNode) (hz seen : Bool) : Json :=
     match l with
-    | [] => outJson (.ok acc) []
+    | [] => outJson (.ok acc) [] hz
     | d :: r =>
       let (cfg, paths) := CV.Reset.readDoc d
       let b := CV.Reset.applyNull paths acc TPath.root
+      let hz' := hz || ipamHazard cfg || (seen && touchesIpam cfg)
+      let seen' := seen || touchesIpam cfg
       match merge b cfg with
       | .ok m =>
         match Unicity.enforceTop m with
-        | .ok u => go u r
-        | f => outJson f (failsEnforce m TPath.root)
+        | .ok u => go u r hz' seen'
+        | f => Json.mergeObj (outJson f (failsEnforce m TPath.root)) (Json.mkObj [("loose", Json.bool hz')])
       | f => Json.mergeObj (outJson f (failsYaml (fuelFor cfg) b cfg TPath.root)) (Json.mkObj [("loose", Json.bool (touchesIpam cfg))])
-  go base ds
+  go base ds false false
 
 def handlers : List (String × Handler) := [
   ("c04.mergeSeq", mergeSeq), ("c04.unicity", unicity), ("c04.parseVolume", parseVolume),
